@@ -401,6 +401,117 @@ def st_case(draw):
             "global": draw(st.integers(0, 3)) == 0}
 
 
+def eval_resync(case):
+    """synced palettes and a replaced global configuration: palette classes with SYNTAX_DEFAULTS (whose descriptions may
+    refer to ids that only a palette created later declares) are instantiated with synced=True under global
+    configuration A; then a new global configuration B is installed. Every accessor of every synced palette, the
+    global palette and B itself must show the reference resolution of (B's explicit items + built-ins + all defaults)."""
+    import ak.color as C
+    descs = case["descs"]
+    findings = []
+    classes = set(["global_resync"])
+    universe = sorted({d["id"] for d in descs} | set(BUILTINS) | {"NOSUCH"})
+    saved = C._GLOBAL_COLORS_CONF
+    mine = []
+
+    def model_for(initial):
+        model = {}
+        for k in initial:
+            model.setdefault(descs[k]["id"], descs[k])
+        for k, v in BUILTINS.items():
+            model.setdefault(k, parse_builtin(v))
+        for grp in case["groups"]:
+            for k in grp:
+                model.setdefault(descs[k]["id"], descs[k])
+        return model
+
+    def check(label, model, pals, conf):
+        for n, i in enumerate(universe):
+            want = expected_state(model, i, False)
+            views = [("config.get_color", lambda: conf.get_color(i)), ("global_palette[id]", lambda: C.global_palette[i])]
+            views += [("synced palette %d accessor" % pn, (lambda p: lambda: getattr(p, "a%d" % n))(p)) for pn, p in enumerate(pals)]
+            for vname, get in views:
+                try:
+                    got, _raw = state_of(get())
+                except Exception as e:   # noqa
+                    findings.append(("resync_lookup_raises_" + type(e).__name__, f"{label} {vname} {i}: {e}"))
+                    return False
+                if got != want:
+                    pend = resolve(model, i) is None and i in model
+                    kind = "unresolved_chain_is_colored" if pend else "stale_or_wrong_formatter"
+                    findings.append((f"{kind}_after_global_config_change_via_{vname.split(' ')[0].split('[')[0].split('.')[0]}",
+                                     f"{label}: {vname} of {i!r} shows {got}, reference {want}; groups "
+                                     f"{[[desc_str(descs[k]) for k in g] for g in case['groups']]!r} explicit "
+                                     f"{[(descs[k]['id'], desc_str(descs[k])) for k in case['init_b']]!r}"))
+                    return False
+        return True
+    try:
+        conf_a = C.ColorsConfig({descs[k]["id"]: desc_str(descs[k]) for k in case["init_a"]})
+        C.set_global_colors_config(conf_a)
+        pals = []
+        for gn, grp in enumerate(case["groups"]):
+            ns = {"SYNTAX_DEFAULTS": {descs[k]["id"]: desc_str(descs[k]) for k in grp}}
+            ns.update({"a%d" % n: C.ConfColor(i) for n, i in enumerate(universe)})
+            cls = type(C.Palette)("SyncedGen%d" % gn, (C.Palette,), ns)
+            mine.append(cls)
+            pals.append(cls(synced=True))
+        ok = check("under configuration A", model_for(case["init_a"]), pals, conf_a)
+        for rnd in range(case.get("rounds", 1)):
+            if not ok:
+                break
+            conf_b = C.ColorsConfig({descs[k]["id"]: desc_str(descs[k]) for k in case["init_b"]})
+            C.set_global_colors_config(conf_b)
+            ok = check("after installing configuration B (round %d)" % rnd, model_for(case["init_b"]), pals, conf_b)
+    except Exception as e:   # noqa
+        import traceback
+        where = traceback.extract_tb(e.__traceback__)[-1].name
+        findings.append(("resync_raises_%s_in_%s" % (type(e).__name__, where), f"{e}"))
+    finally:
+        for cls in mine:      # reset of the package's process-wide registry: synced palettes of this case only
+            C._GSYNCED_PALETTES.pop(cls, None)
+        C.set_global_colors_config(saved)
+    # non-trivial: an earlier palette's defaults refer to an id declared only by a later palette
+    nt = False
+    where = {}
+    for gn, grp in enumerate(case["groups"]):
+        for k in grp:
+            where[descs[k]["id"]] = gn
+    for gn, grp in enumerate(case["groups"]):
+        for k in grp:
+            p = descs[k].get("parent")
+            if p in where and where[p] > gn and descs[k]["id"] not in BUILTINS:
+                nt = True
+                classes.add("default_refers_to_id_of_later_palette")
+    if len(case["groups"]) >= 2:
+        classes.add("two_or_more_synced_palettes")
+    return Outcome(nt, sorted(classes), findings[:3], key=[[desc_str(d) for d in descs], case["groups"], case["init_a"], case["init_b"]])
+
+
+@st.composite
+def st_resync_case(draw):
+    base = draw(st_case())
+    descs = base["descs"]
+    n = len(descs)
+    perm = list(draw(st.permutations(list(range(n)))))
+    ng = draw(st.integers(1, 3))
+    cut = sorted(draw(st.lists(st.integers(0, n), min_size=ng, max_size=ng)))
+    groups, prev = [], 0
+    rest = perm
+    for c in cut:
+        groups.append(rest[prev:c])
+        prev = c
+    groups = [g for g in groups if g]
+    left = rest[prev:]
+    if not groups:
+        groups = [perm[:1]]
+        left = perm[1:]
+    init_a = [k for k in left if draw(st.booleans())]
+    init_b = [k for k in left if draw(st.booleans())]
+    # B may also explicitly configure ids that palettes declare (explicit items win over defaults)
+    init_b += [k for g in groups for k in g if draw(st.integers(0, 4)) == 0]
+    return {"descs": descs, "groups": groups, "init_a": init_a, "init_b": init_b, "rounds": draw(st.integers(1, 2))}
+
+
 def regression_cases():
     # F9: a description with a parent and an explicit '-'
     d = [{"id": "A", "parent": "NAME", "fg": "-", "bg": "BLUE", "mods": {}, "sp": 1}]
@@ -414,6 +525,8 @@ def parts(tier):
     return [
         Part("regressions", evaluate, enumerate=regression_cases, exhaustive=True),
         Part("description_sets", evaluate, strategy=st_case, examples=5000 * k),
+        Part("global_resync", eval_resync, strategy=st_resync_case, examples=2500 * k,
+             note="synced palettes re-registering themselves when the global configuration is replaced"),
     ]
 
 
